@@ -14,12 +14,36 @@ MANIFEST = {
  'technique': "machine-checked proof in Coq (invariants over visitor event sequences, product of certified rules; purity of the threaded expression checker by induction) + vm_compute correspondence on state traces and expression sequences + composition oracle on the real linter",
 }
 
+GEN = os.path.join(vf.COQ, 'Gen', 'GenRuleFields.v')
+
+
+def regen(ctx):
+    """re-list the fields of the Rule* types of the package; write Gen only when changed"""
+    tmp = os.path.join(ctx.out, 'GenRuleFields.v')
+    rc, out = vf.sh([os.path.join(vf.BIN, 'c09'), '-extract-fields', vf.REPO, '-gen', tmp], timeout=120)
+    if rc != 0:
+        ctx.broken.append('listing the fields of the rule types failed: ' + out[-400:])
+        return
+    new = open(tmp).read()
+    old = open(GEN).read() if os.path.exists(GEN) else None
+    if new != old:
+        open(GEN, 'w').write(new)
+        ctx.notes.append('coq/Gen/GenRuleFields.v regenerated (content changed)')
+
+
 def run(ctx):
     ok, log = vf.build_harness(ctx, ['c09'])
     if not ok:
         ctx.broken.append('harness does not build against the repository (is the verif hook verif_export_state.go applied?): ' + log[-600:])
         vf.finish(ctx, 'proof', [])
+    regen(ctx)
     nthm, ndis, _ = vf.check_props(ctx)
+    if 'RuleFields' in (getattr(ctx, 'coq_log', '') or ''):
+        import re as _re
+        allowed = set(_re.findall(r'\("(\w+)", "([^"]+)", \w+\)', open(os.path.join(vf.COQ, 'Wf', 'RuleFields.v')).read()))
+        now = _re.findall(r'\("(\w+)", "([^"]+)", "[^"]*"\)', open(GEN).read())
+        ctx.broken.append('coq/Wf/RuleFields.v (rule_fields_known_b): a rule type has a field that is not one of the known ones (new state a rule could carry from one job into the next): '
+                          + '; '.join('.'.join(x) for x in now if x not in allowed))
     gate = vf.grep_gate()
     if gate:
         ctx.broken.append('forbidden constructs in coq/: ' + '; '.join(gate[:5]))
